@@ -179,6 +179,10 @@ func runC02(c *Ctx) {
 				if _, isPhi := s.Val.(*ssa.Phi); isPhi {
 					lowers = true
 				}
+				if call, ok := s.Val.(*ssa.Call); ok && (builtinName(call) == "max" || builtinName(call) == "min") {
+					// a clamp (`size = max(size, 0)`, the builtin form of `if size < 0 { size = 0 }`): may lower
+					lowers = true
+				}
 				if !lowers {
 					if bo, ok := s.Val.(*ssa.BinOp); ok && bo.Op == token.ADD {
 						continue
